@@ -77,6 +77,59 @@ def _in_finally(fn, suffix):
     return False
 
 
+def _flat(stmts):
+    """statements in execution order, `if` / `for` / `with` / `try` bodies flattened (the teardown procedures are straight-line code with guards)"""
+    for st in stmts:
+        if isinstance(st, ast.If):
+            yield from _flat(st.body)
+            yield from _flat(st.orelse)
+        elif isinstance(st, (ast.For, ast.With)):
+            yield from _flat(st.body)
+        elif isinstance(st, ast.Try):
+            yield from _flat(st.body)
+            yield from _flat(st.finalbody)
+        else:
+            yield st
+
+
+def _steps(fn, which):
+    """the teardown procedure as a list of step kinds, in source order"""
+    out = []
+    for st in _flat(fn.body):
+        if isinstance(st, ast.Expr) and isinstance(st.value, ast.Constant):
+            continue
+        src = ast.unparse(st)
+        has_await = any(isinstance(n, ast.Await) for n in ast.walk(st))
+        if has_await:
+            if "_facade.disconnect()" in src and which == "reset":
+                out.append("callFacadeDisconnect")
+            elif "_spa.disconnect()" in src and which == "reset":
+                out.append("callSpaDisconnect")
+            elif "_event_handler(" in src or "_handle_event(" in src:
+                out.append("awaitHandler")
+            else:
+                out.append("awaitOther")
+        elif _has_call(st, "cancel_key_tasks", "SPA"):
+            out.append("cancelSpa")
+        elif _has_call(st, "cancel_key_tasks", "FACADE"):
+            out.append("cancelFacade")
+        elif _has_call(st, "_protocol.disconnect"):
+            out.append("dropProtocol")
+        elif _has_call(st, "_transport.close") or _has_call(st, "transport.close"):
+            out.append("closeTransport")
+        elif _has_call(st, "unwatch_all"):
+            out.append("unwatch")
+        elif src.replace(" ", "") == "self._spa=None":
+            out.append("clearSpa")
+        elif src.replace(" ", "") == "self._facade=None":
+            out.append("clearFacade")
+        elif src.replace(" ", "") == "self._spa_state=GeckoSpaState.IDLE":
+            out.append("setIdle")
+        else:
+            out.append("other")
+    return out
+
+
 def gen_crash_points():
     spa = T.parse("async_spa.py")
     loc = T.parse("async_locator.py")
@@ -135,6 +188,12 @@ def gen_crash_points():
            f"  ⟨\"pump-idle\", {pump_sleeps[0]}, .no, false⟩,\n  ⟨\"pump-connected\", {pump_sleeps[0]}, .yes, true⟩]\n",
            "structure TeardownFacts where\n" + "\n".join(f"  {k} : Bool" for k in facts) + "\nderiving Repr, DecidableEq\n",
            "def teardownFacts : TeardownFacts := {\n" + ",\n".join(f"  {k} := {'true' if v else 'false'}" for k, v in facts.items()) + " }\n",
+           "/-- one statement of a teardown procedure (async_reset / GeckoAsyncSpa.disconnect / GeckoAsyncFacade.disconnect), classified -/\n"
+           "inductive TStep | awaitHandler | awaitOther | callFacadeDisconnect | callSpaDisconnect | cancelSpa | cancelFacade | dropProtocol\n"
+           "  | closeTransport | unwatch | clearSpa | clearFacade | setIdle | other\nderiving Repr, DecidableEq\n",
+           "def resetSteps : List TStep := [" + ", ".join("." + x for x in _steps(reset, "reset")) + "]",
+           "def spaDisconnectSteps : List TStep := [" + ", ".join("." + x for x in _steps(disconnect, "spa")) + "]",
+           "def facadeDisconnectSteps : List TStep := [" + ", ".join("." + x for x in _steps(fdis, "facade")) + "]\n",
            "end GeckoModel.Generated\n"]
     return "\n".join(out)
 
